@@ -995,6 +995,60 @@ fn stream_reconstruct(rng: &mut Rng, out: &mut Out, thorough: bool) {
             out.files[sh].push(g_recon + 1, format!("mkUV {} {} {} {}", coq_list(&all, |x| coq_n(*x as u128)), coq_list(&uncles_index, |x| coq_nat(*x as u64)), coq_list(&got, |x| coq_n(*x as u128)), coq_bool(uncles_ok)));
             out.descs[sh].entry("uverify".into()).or_default().push(json!({"stream": "reconstruct", "uncles": all, "uncles_index": uncles_index, "received": got, "verifier_ok": uncles_ok}));
         }
+        // BlockTransactionsVerifier: this compact block as the PENDING one (it may be another peer's than the one the
+        // indexes were computed from), indexes in and out of its range, honest and dishonest replies
+        {
+            let slots = compact.block_short_ids();
+            let nslots = slots.len() as u32;
+            let mut idx: Vec<u32> = (0..nslots).filter(|i| slots[*i as usize].is_some() && rng.chance(2, 3)).collect();
+            match rng.below(8) {
+                0 => idx.push(nslots),                                   // the other peer's block has one more transaction
+                1 => idx.push(nslots + rng.range(1, 4) as u32),
+                2 => idx.push(u32::MAX),
+                3 => idx.insert(0, rng.below(nslots as u64 + 1) as u32),   // possibly a prefilled slot, unsorted, repeated
+                4 => { idx.reverse(); }
+                _ => {}
+            }
+            let by_sid: HashMap<packed::ProposalShortId, &core::TransactionView> = txs.iter().chain(foreign.iter()).map(|t| (t.proposal_short_id(), t)).collect();
+            let mut reply: Vec<core::TransactionView> = idx.iter().filter_map(|i| slots.get(*i as usize).cloned().flatten()).filter_map(|sid| by_sid.get(&sid).map(|t| (*t).clone())).collect();
+            match rng.below(8) {
+                0 => { reply.pop(); }
+                1 => reply.push(foreign[0].clone()),
+                2 => { if reply.len() >= 2 { reply.swap(0, 1); } }
+                3 => { if !reply.is_empty() { reply[0] = foreign[1].clone(); } }
+                _ => {}
+            }
+            let verdict = match silent(|| ckb_sync::verif_block_transactions_verify(&compact, &idx, &reply)) {
+                Err(p) => {
+                    out.violation(&format!("BlockTransactionsVerifier panics on a peer's reply ({p}): the pending compact block has {nslots} transaction slot(s), the indexes are {idx:?}"),
+                        json!({"stream": "reconstruct", "compact_block": hex(compact.as_slice()), "indexes": idx, "transactions": reply.iter().map(|t| hex(t.data().as_slice())).collect::<Vec<_>>()}), None);
+                    "TPanic"
+                }
+                Ok(st) if st.is_ok() => "TOk",
+                Ok(st) => {
+                    let code = st.code();
+                    if code == ckb_sync::StatusCode::BlockTransactionsLengthIsUnmatchedWithPendingCompactBlock { "TLength" }
+                    else if code == ckb_sync::StatusCode::BlockTransactionsShortIdsAreUnmatchedWithPendingCompactBlock { "TUnmatched" }
+                    else {
+                        out.violation(&format!("unexpected BlockTransactionsVerifier status {:?}", code), json!({"stream": "reconstruct"}), None);
+                        "TPanic"
+                    }
+                }
+            };
+            out.evaluations += 1;
+            out.count("txs_verifier_cases");
+            out.count(&format!("txs_verifier_{verdict}"));
+            if idx.iter().any(|i| *i >= nslots) { out.count("txs_verifier_index_beyond_pending_block"); }
+            let optn = |o: &Option<packed::ProposalShortId>| match o { Some(s) => format!("(Some {})", coq_n(sid_num(s) as u128)), None => "None".to_string() };
+            out.files[sh].push(g_recon + 3, format!("mkTV {} {} {} {} {} {}",
+                coq_list(&pre, |(ix, _)| coq_n(*ix as u128)),
+                coq_list(&short_ids, |s| coq_n(sid_num(s) as u128)),
+                coq_list(&slots, optn),
+                coq_list(&idx, |x| coq_n(*x as u128)),
+                coq_list(&reply, |t| coq_n(sid_num(&t.proposal_short_id()) as u128)),
+                verdict));
+            out.descs[sh].entry("tverify".into()).or_default().push(json!({"stream": "reconstruct", "compact_block": hex(compact.as_slice()), "indexes": idx, "reply_short_ids": reply.iter().map(|t| sid_num(&t.proposal_short_id())).collect::<Vec<_>>(), "verdict": verdict}));
+        }
         let mut d = ctx.clone();
         d["observed"] = json!(obs);
         if out.samples.len() < 3 && ci % 7 == 3 {
@@ -1006,7 +1060,7 @@ fn stream_reconstruct(rng: &mut Rng, out: &mut Out, thorough: bool) {
 }
 
 fn new_out(dir: &std::path::Path, cap: usize) -> Out {
-    let header = "From CKB Require Import Codec.Molecule gen.Schema Codec.Compact Codec.UnclesVerify Codec.Rounds.";
+    let header = "From CKB Require Import Codec.Molecule gen.Schema Codec.Compact Codec.UnclesVerify Codec.Rounds Codec.TxsVerify.";
     let files: Vec<CaseFile> = (0..SHARDS)
         .map(|i| {
             let mut cf = CaseFile::new(dir, &format!("cases_{:02}", i), header);
@@ -1015,6 +1069,7 @@ fn new_out(dir: &std::path::Path, cap: usize) -> Out {
             cf.group("recon", "recon_case", "check_recon");
             cf.group("uverify", "uvcase", "check_uvcase");
             assert_eq!(cf.group("rounds", "rounds_case", "check_rounds"), rounds::G_ROUNDS);
+            cf.group("tverify", "tvcase", "check_tvcase");
             cf
         })
         .collect();
